@@ -4,6 +4,18 @@
 #define CONTRACTS_SKINNY128_CIPHER_H
 #include "verif_common.h"
 
+/* validity of the 16-byte TK1 argument of set_tk1/xor_tk1.  In the jobs that REPLACE these two
+   functions inside set_tweaked_key/set_tweak the argument is the tweak field of the very object that
+   holds the schedule, which an is_fresh precondition (object granular) cannot describe; those jobs
+   assert plain readability instead.  The enforce jobs prove the contract for a separate buffer; that
+   it carries over to a disjoint byte range of the same object rests on the proved frame (writes:
+   schedule region only) - listed as assumption 'byte-range locality'. */
+#ifdef VERIF_ALIAS_KEY
+#define V128_TK1ARG_VALID(key) __CPROVER_r_ok(key, 16)
+#else
+#define V128_TK1ARG_VALID(key) __CPROVER_is_fresh(key, 16)
+#endif
+
 #define V128_LOAD_STATE(p) \
     VG_S[0] = VU8(p)[0]; VG_S[1] = VU8(p)[1]; VG_S[2] = VU8(p)[2]; VG_S[3] = VU8(p)[3]; \
     VG_S[4] = VU8(p)[4]; VG_S[5] = VU8(p)[5]; VG_S[6] = VU8(p)[6]; VG_S[7] = VU8(p)[7]; \
@@ -117,7 +129,7 @@ static const void *VG_TK3_KEY; static unsigned VG_TK3_SIZE; static unsigned VG_T
 #define VC_skinny128_set_tk1 \
     __CPROVER_requires(__CPROVER_is_fresh(ks, sizeof(Skinny128Key_t))) \
     __CPROVER_requires(ks->rounds <= SKINNY128_MAX_ROUNDS && VG_J < SKINNY128_MAX_ROUNDS) \
-    __CPROVER_requires(key_size == SKINNY128_BLOCK_SIZE && __CPROVER_is_fresh(key, 16)) \
+    __CPROVER_requires(key_size == SKINNY128_BLOCK_SIZE && V128_TK1ARG_VALID(key)) \
     __CPROVER_assigns(V128_SCHED_REGION(ks), __CPROVER_object_whole(VG_T), VG_OLD0, VG_OLD1, \
                       VG_TK1_KEY, VG_TK1_TWEAKED, VG_TK1_N) \
     __CPROVER_ensures(ks->rounds == __CPROVER_old(ks->rounds)) \
@@ -132,23 +144,25 @@ static const void *VG_TK3_KEY; static unsigned VG_TK3_SIZE; static unsigned VG_T
 /* loop 1 (partial unpack) is unreachable under key_size == 16 but must still carry a
    contract: symex would otherwise unwind it without bound on the infeasible path */
 #define VL_skinny128_set_tk1_1 V128_TKN_UNPACK_LOOP
+#define V128_TK_IS_KEYPERM(tk, key, j) \
+    ((tk).row[0] == V128_TK1ROW(key, j, 0) && (tk).row[1] == V128_TK1ROW(key, j, 1) && \
+     (tk).row[2] == V128_TK1ROW(key, j, 2) && (tk).row[3] == V128_TK1ROW(key, j, 3))
 #define VL_skinny128_set_tk1_2 \
-    __CPROVER_assigns(index, rc, __CPROVER_object_whole(&tk), V128_SCHED_REGION(ks), __CPROVER_object_whole(VG_T)) \
+    __CPROVER_assigns(index, rc, __CPROVER_object_whole(&tk), V128_SCHED_REGION(ks)) \
     __CPROVER_loop_invariant(index <= ks->rounds) \
-    __CPROVER_loop_invariant(V128_TK_IS_GHOST(tk, VG_T)) \
-    __CPROVER_loop_invariant(V128_T_IS_KEYPERM(VG_T, key, index)) \
+    __CPROVER_loop_invariant(V128_TK_IS_KEYPERM(tk, key, index)) \
     __CPROVER_loop_invariant(rc == (index == 0 ? 0 : SPEC_RC[index - 1])) \
     __CPROVER_loop_invariant(VG_J < index ==> V128_SCHED_J_IS(ks, V128_TK1_EXP0(key, VG_J, tweaked), V128_TK1_EXP1(key, VG_J))) \
     __CPROVER_loop_invariant(VG_J >= index ==> V128_SCHED_J_IS(ks, VG_OLD0, VG_OLD1)) \
     __CPROVER_decreases(ks->rounds - index)
 
-#define VT_skinny128_set_tk1_2 spec128_tk_permute(VG_T);
+#define VT_skinny128_set_tk1_2
 
 /* ---- skinny128_xor_tk1 ---- */
 #define VC_skinny128_xor_tk1 \
     __CPROVER_requires(__CPROVER_is_fresh(ks, sizeof(Skinny128Key_t))) \
     __CPROVER_requires(ks->rounds <= SKINNY128_MAX_ROUNDS && VG_J < SKINNY128_MAX_ROUNDS) \
-    __CPROVER_requires(__CPROVER_is_fresh(key, 16)) \
+    __CPROVER_requires(V128_TK1ARG_VALID(key)) \
     __CPROVER_assigns(V128_SCHED_REGION(ks), __CPROVER_object_whole(VG_T), VG_OLD0, VG_OLD1) \
     __CPROVER_ensures(ks->rounds == __CPROVER_old(ks->rounds)) \
     __CPROVER_ensures(VG_J < ks->rounds ==> V128_SCHED_J_IS(ks, \
@@ -213,5 +227,104 @@ static const void *VG_TK3_KEY; static unsigned VG_TK3_SIZE; static unsigned VG_T
 #define VL_skinny128_set_tk3_2 V128_TKN_MAIN_LOOP(VG_SNAP3)
 #define VT_skinny128_set_tk3_2 \
     if (index == VG_J) { V128_COPY8(VG_SNAP3, VG_T) } spec128_tk_permute(VG_T); spec128_tk_lfsr3(VG_T);
+
+/* ========================================================================
+ * skinny128_set_key_inner (callees set_tk1/2/3 replaced by their contracts):
+ * round count from the key length, TK1 := key or tweak (with the tweak-domain
+ * bit), the remaining key bytes to TK2 / TK3 (recorded in the ghost call log),
+ * each called exactly once, schedule[J] = TK1_J ^ rc_J ^ TK2_J ^ TK3_J.
+ * ====================================================================== */
+#define V128_HAS2(key_size, tweak) ((tweak) ? 1 : ((key_size) > 16))
+#define V128_HAS3(key_size, tweak) ((tweak) ? ((key_size) > 16) : ((key_size) > 32))
+#define V128_ROUNDS(key_size, tweak) \
+    ((tweak) ? ((key_size) == 16 ? 48u : 56u) : ((key_size) == 16 ? 40u : (key_size) <= 32 ? 48u : 56u))
+#define V128_MIN16(x) ((x) < 16 ? (x) : 16)
+#define V128_INNER_ROW0(key, key_size, tweak) \
+    (((tweak) ? V128_TK1_EXP0(tweak, VG_J, 1) : V128_TK1_EXP0(key, VG_J, 0)) ^ \
+     (V128_HAS2(key_size, tweak) ? VPACK32(VG_SNAP2, 0) : 0u) ^ (V128_HAS3(key_size, tweak) ? VPACK32(VG_SNAP3, 0) : 0u))
+#define V128_INNER_ROW1(key, key_size, tweak) \
+    (((tweak) ? V128_TK1_EXP1(tweak, VG_J) : V128_TK1_EXP1(key, VG_J)) ^ \
+     (V128_HAS2(key_size, tweak) ? VPACK32(VG_SNAP2, 1) : 0u) ^ (V128_HAS3(key_size, tweak) ? VPACK32(VG_SNAP3, 1) : 0u))
+#define V128_INNER_POST(ks, key, key_size, tweak) \
+    ((ks)->rounds == V128_ROUNDS(key_size, tweak) && \
+     (VG_J < (ks)->rounds ==> V128_SCHED_J_IS(ks, V128_INNER_ROW0(key, key_size, tweak), V128_INNER_ROW1(key, key_size, tweak))) && \
+     (V128_HAS2(key_size, tweak) ==> (VG_TK2_KEY == ((tweak) ? (const void *)(key) : (const void *)(VU8(key) + 16)) && \
+                                    VG_TK2_SIZE == ((tweak) ? V128_MIN16(key_size) : V128_MIN16((key_size) - 16)))) && \
+     (V128_HAS3(key_size, tweak) ==> (VG_TK3_KEY == ((tweak) ? (const void *)(VU8(key) + 16) : (const void *)(VU8(key) + 32)) && \
+                                    VG_TK3_SIZE == ((tweak) ? (key_size) - 16 : (key_size) - 32))))
+#define V128_KEYGHOSTS \
+    __CPROVER_object_whole(VG_T), __CPROVER_object_whole(VG_SNAP2), __CPROVER_object_whole(VG_SNAP3), VG_OLD0, VG_OLD1, \
+    VG_TK1_KEY, VG_TK1_TWEAKED, VG_TK1_N, VG_TK2_KEY, VG_TK2_SIZE, VG_TK2_N, VG_TK3_KEY, VG_TK3_SIZE, VG_TK3_N
+
+#define VC_skinny128_set_key_inner \
+    __CPROVER_requires(__CPROVER_is_fresh(ks, sizeof(Skinny128Key_t)) && VG_J < SKINNY128_MAX_ROUNDS) \
+    __CPROVER_requires(16 <= key_size && key_size <= (tweak ? 32 : 48) && __CPROVER_is_fresh(key, key_size)) \
+    __CPROVER_requires(tweak == NULL || __CPROVER_is_fresh(tweak, 16)) \
+    __CPROVER_assigns(ks->rounds, V128_SCHED_REGION(ks), V128_KEYGHOSTS) \
+    __CPROVER_ensures(V128_INNER_POST(ks, key, key_size, tweak)) \
+    __CPROVER_ensures(VG_TK1_N == __CPROVER_old(VG_TK1_N) + 1) \
+    __CPROVER_ensures(VG_TK2_N == __CPROVER_old(VG_TK2_N) + (V128_HAS2(key_size, tweak) ? 1 : 0)) \
+    __CPROVER_ensures(VG_TK3_N == __CPROVER_old(VG_TK3_N) + (V128_HAS3(key_size, tweak) ? 1 : 0))
+
+/* ---- skinny128_set_key (set_key_inner replaced by its contract) ---- */
+#define V128_SETKEY_OK(ks, key, size) ((ks) != NULL && (key) != NULL && (size) >= 16 && (size) <= 48)
+#define VC_skinny128_set_key \
+    __CPROVER_requires(ks == NULL || __CPROVER_is_fresh(ks, sizeof(Skinny128Key_t))) \
+    __CPROVER_requires(key == NULL || __CPROVER_is_fresh(key, (size <= 64) ? size : 64)) \
+    __CPROVER_requires(VG_J < SKINNY128_MAX_ROUNDS) \
+    __CPROVER_assigns(V128_SETKEY_OK(ks, key, size): ks->rounds, V128_SCHED_REGION(ks), V128_KEYGHOSTS) \
+    __CPROVER_ensures(__CPROVER_return_value == (V128_SETKEY_OK(ks, key, size) ? 1 : 0)) \
+    __CPROVER_ensures(__CPROVER_return_value == 1 ==> V128_INNER_POST(ks, key, size, (const void *)0))
+
+/* ---- skinny128_set_tweaked_key: set_key_inner and set_tk1 inlined (the tweak lies
+ *      in the same object as the schedule, so is_fresh-based callee contracts cannot
+ *      be used for them); set_tk2/set_tk3 replaced by their contracts ---- */
+#define V128_TWEAK_ZERO(ks) \
+    ((ks)->tweak[0] == 0 && (ks)->tweak[1] == 0 && (ks)->tweak[2] == 0 && (ks)->tweak[3] == 0 && \
+     (ks)->tweak[4] == 0 && (ks)->tweak[5] == 0 && (ks)->tweak[6] == 0 && (ks)->tweak[7] == 0 && \
+     (ks)->tweak[8] == 0 && (ks)->tweak[9] == 0 && (ks)->tweak[10] == 0 && (ks)->tweak[11] == 0 && \
+     (ks)->tweak[12] == 0 && (ks)->tweak[13] == 0 && (ks)->tweak[14] == 0 && (ks)->tweak[15] == 0)
+#define V128_SETTKEY_OK(ks, key, size) ((ks) != NULL && (key) != NULL && (size) >= 16 && (size) <= 32)
+#define VC_skinny128_set_tweaked_key \
+    __CPROVER_requires(ks == NULL || __CPROVER_is_fresh(ks, sizeof(Skinny128TweakedKey_t))) \
+    __CPROVER_requires(key == NULL || __CPROVER_is_fresh(key, (key_size <= 64) ? key_size : 64)) \
+    __CPROVER_requires(VG_J < SKINNY128_MAX_ROUNDS) \
+    __CPROVER_assigns(V128_SETTKEY_OK(ks, key, key_size): __CPROVER_object_upto((void *)ks, sizeof(Skinny128TweakedKey_t)), V128_KEYGHOSTS) \
+    __CPROVER_ensures(__CPROVER_return_value == (V128_SETTKEY_OK(ks, key, key_size) ? 1 : 0)) \
+    __CPROVER_ensures(__CPROVER_return_value == 1 ==> V128_TWEAK_ZERO(ks)) \
+    __CPROVER_ensures(__CPROVER_return_value == 1 ==> V128_INNER_POST(&ks->ks, key, key_size, ks->tweak))
+
+/* ---- skinny128_set_tweak (C04): abstract view of a tweakable schedule at witness round J:
+ *        KP_J := schedule[J] ^ TK1_J(stored tweak)      (the key part)
+ *      the call leaves KP_J unchanged and stores tweak' = new bytes ++ zeros, for every
+ *      prior tweak: the post-state depends only on (key part, new tweak).
+ *      xor_tk1 is inlined with its loop contract (same-object reason as above). ---- */
+static uint32_t VG_KP0, VG_KP1;     /* key part of schedule[J] at entry */
+#define V128_VIEW0(ks) ((ks)->ks.schedule[VG_J].row[0] ^ V128_TK1ROW((ks)->tweak, VG_J, 0))
+#define V128_VIEW1(ks) ((ks)->ks.schedule[VG_J].row[1] ^ V128_TK1ROW((ks)->tweak, VG_J, 1))
+#define V128_SETTWEAK_OK(ks, size) ((ks) != NULL && (size) >= 1 && (size) <= 16)
+#define V128_TWEAK_IS_PADDED(ks, tw, n) \
+    ((ks)->tweak[0] == ((tw) && 0 < (n) ? VU8(tw)[0] : 0) && (ks)->tweak[1] == ((tw) && 1 < (n) ? VU8(tw)[1] : 0) && \
+     (ks)->tweak[2] == ((tw) && 2 < (n) ? VU8(tw)[2] : 0) && (ks)->tweak[3] == ((tw) && 3 < (n) ? VU8(tw)[3] : 0) && \
+     (ks)->tweak[4] == ((tw) && 4 < (n) ? VU8(tw)[4] : 0) && (ks)->tweak[5] == ((tw) && 5 < (n) ? VU8(tw)[5] : 0) && \
+     (ks)->tweak[6] == ((tw) && 6 < (n) ? VU8(tw)[6] : 0) && (ks)->tweak[7] == ((tw) && 7 < (n) ? VU8(tw)[7] : 0) && \
+     (ks)->tweak[8] == ((tw) && 8 < (n) ? VU8(tw)[8] : 0) && (ks)->tweak[9] == ((tw) && 9 < (n) ? VU8(tw)[9] : 0) && \
+     (ks)->tweak[10] == ((tw) && 10 < (n) ? VU8(tw)[10] : 0) && (ks)->tweak[11] == ((tw) && 11 < (n) ? VU8(tw)[11] : 0) && \
+     (ks)->tweak[12] == ((tw) && 12 < (n) ? VU8(tw)[12] : 0) && (ks)->tweak[13] == ((tw) && 13 < (n) ? VU8(tw)[13] : 0) && \
+     (ks)->tweak[14] == ((tw) && 14 < (n) ? VU8(tw)[14] : 0) && (ks)->tweak[15] == ((tw) && 15 < (n) ? VU8(tw)[15] : 0))
+#define VC_skinny128_set_tweak \
+    __CPROVER_requires(ks == NULL || __CPROVER_is_fresh(ks, sizeof(Skinny128TweakedKey_t))) \
+    __CPROVER_requires(ks == NULL || ks->ks.rounds <= SKINNY128_MAX_ROUNDS) \
+    __CPROVER_requires(tweak == NULL || __CPROVER_is_fresh(tweak, (tweak_size <= 16) ? tweak_size : 16)) \
+    __CPROVER_requires(VG_J < SKINNY128_MAX_ROUNDS) \
+    __CPROVER_assigns(V128_SETTWEAK_OK(ks, tweak_size): __CPROVER_object_upto((void *)ks->ks.schedule, sizeof(ks->ks.schedule)), \
+                      __CPROVER_object_upto(ks->tweak, 16)) \
+    __CPROVER_assigns(__CPROVER_object_whole(VG_T), VG_OLD0, VG_OLD1, VG_KP0, VG_KP1) \
+    __CPROVER_ensures(__CPROVER_return_value == (V128_SETTWEAK_OK(ks, tweak_size) ? 1 : 0)) \
+    __CPROVER_ensures(__CPROVER_return_value == 1 ==> ks->ks.rounds == __CPROVER_old(ks->ks.rounds)) \
+    __CPROVER_ensures(__CPROVER_return_value == 1 ==> V128_TWEAK_IS_PADDED(ks, tweak, tweak_size)) \
+    __CPROVER_ensures((__CPROVER_return_value == 1 && VG_J < ks->ks.rounds) ==> (V128_VIEW0(ks) == VG_KP0 && V128_VIEW1(ks) == VG_KP1))
+#define VE_skinny128_set_tweak \
+    if (ks) { VG_KP0 = V128_VIEW0(ks); VG_KP1 = V128_VIEW1(ks); }
 
 #endif
